@@ -80,6 +80,18 @@ pub fn v_strip_prefix_or(x: &String, p: &str, y: &String) -> (r: String)
     ensures r@ == (match strip_prefix_spec(x@, p@) { Some(t) => t, None => y@ }),
 { unimplemented!() }
 
+/// `&s[from..]` on a `String` (N9 strviews)
+#[verifier::external_body]
+pub fn v_str_tail(s: &String, from: usize) -> (r: &str)
+    requires from <= str_byte_len(s@),
+    ensures r@ == str_from_spec(s@, from as nat),
+{ unimplemented!() }
+/// `x.strip_prefix(p).unwrap_or(y)` on string views (N9 strviews)
+#[verifier::external_body]
+pub fn v_strip_prefix_or_view<'a>(x: &'a str, p: &str, y: &'a str) -> (r: &'a str)
+    ensures r@ == (match strip_prefix_spec(x@, p@) { Some(t) => t, None => y@ }),
+{ unimplemented!() }
+
 /// N11: `HashMap<String, usize>` as a finite map from token text to receipt number (T5)
 #[verifier::external_body]
 pub struct VMap { m: std::collections::HashMap<String, usize> }
